@@ -61,6 +61,8 @@ type FuncAn struct {
 	Conds []Cond
 	byIf  map[*ssa.If]int
 	bc    *boundsCtx // lazily built, for linearAlts
+	oracle func(v ssa.Value) sval // set while a scenario is evaluated (symeval.go): what the scenario decides about v
+	Via   ssa.Instruction // for a helper context made by withNewHelpers: the call in the anchor function through which it is reached
 }
 
 // NewFuncAnCtx renders the parameters of fn as the given caller-side terms.
@@ -561,6 +563,11 @@ func (fa *FuncAn) knownBool(v ssa.Value, e *Edge) (val, known bool) {
 	if c, ok := v.(*ssa.Const); ok && c.Value != nil {
 		return c.Value.String() == "true", true
 	}
+	if fa.oracle != nil {
+		if s := fa.oracle(v); s.kind == 1 {
+			return s.b, true
+		}
+	}
 	if phi, ok := v.(*ssa.Phi); ok && e != nil && phi.Block() == e.To() {
 		for i, p := range phi.Block().Preds {
 			if p == e.From {
@@ -583,6 +590,11 @@ var errCtorRe = regexp.MustCompile(`^(fmt\.Errorf|errors\.New|krberror\.\w+|mess
 func (fa *FuncAn) knownNonNilErr(v ssa.Value, e *Edge) bool {
 	if c, ok := v.(*ssa.Const); ok {
 		return c.Value != nil
+	}
+	if fa.oracle != nil {
+		if s := fa.oracle(v); s.kind == 2 && !s.b {
+			return true
+		}
 	}
 	if phi, ok := v.(*ssa.Phi); ok && e != nil && phi.Block() == e.To() {
 		for i, p := range phi.Block().Preds {
@@ -1215,6 +1227,10 @@ func (fa *FuncAn) withNewHelpers() []*FuncAn {
 				seen[g] = true
 				sub := NewFuncAnCtx(a.W, g, a.CallArgs(call))
 				sub.R.inlineDepth = a.R.inlineDepth + 1
+				sub.Via = a.Via
+				if sub.Via == nil {
+					sub.Via = call
+				}
 				out = append(out, sub)
 				if depth < 2 {
 					walk(sub, depth+1)
@@ -1223,5 +1239,60 @@ func (fa *FuncAn) withNewHelpers() []*FuncAn {
 		}
 	}
 	walk(fa, 0)
+	return out
+}
+
+// LeafTerms: the values v may take, as terms — through φs and through the results of helpers
+// extracted from the function (their success returns, with parameters read as the arguments).
+func (fa *FuncAn) LeafTerms(v ssa.Value) []string {
+	var out []string
+	seen := map[ssa.Value]bool{}
+	var walk func(a *FuncAn, v ssa.Value, depth int)
+	walk = func(a *FuncAn, v ssa.Value, depth int) {
+		if seen[v] || depth > 12 {
+			return
+		}
+		seen[v] = true
+		switch x := v.(type) {
+		case *ssa.Phi:
+			for _, e := range x.Edges {
+				walk(a, e, depth+1)
+			}
+			return
+		case *ssa.Extract, *ssa.Call:
+			idx := 0
+			var call *ssa.Call
+			if ex, ok := x.(*ssa.Extract); ok {
+				idx = ex.Index
+				call, _ = ex.Tuple.(*ssa.Call)
+			} else {
+				call = x.(*ssa.Call)
+			}
+			if call != nil {
+				if g := call.Call.StaticCallee(); g != nil && newHelper(g) && g != a.Fn && a.R.inlineDepth < 3 {
+					sub := NewFuncAnCtx(a.W, g, a.CallArgs(call))
+					sub.R.inlineDepth = a.R.inlineDepth + 1
+					n := g.Signature.Results().Len()
+					found := false
+					for _, ex := range sub.Exits() {
+						rs := RetResults(ex.Ret)
+						if idx >= len(rs) {
+							continue
+						}
+						if n >= 2 && g.Signature.Results().At(n-1).Type().String() == "error" && sub.knownNonNilErr(rs[n-1], ex.In) {
+							continue
+						}
+						found = true
+						walk(sub, rs[idx], depth+1)
+					}
+					if found {
+						return
+					}
+				}
+			}
+		}
+		out = append(out, a.R.R(v))
+	}
+	walk(fa, v, 0)
 	return out
 }
